@@ -173,6 +173,9 @@ def _run_main(prog, tier):
                 if s_ is cov_stmt or (mname == "gradient" and isinstance(s_, ast.Assign) and isinstance(s_.targets[0], ast.Name)
                                       and s_.targets[0].id in cov_names and s_.targets[0].id in ("covariance",)):
                     continue
+                if mname == "gradient" and isinstance(s_, ast.AugAssign) and isinstance(s_.target, ast.Name) and s_.target.id in cov_names \
+                        and s_.target.id in ("covariance",):
+                    continue        # an in-place step of the covariance computation: decided by the rank rule, like its first statement
                 if isinstance(s_, ast.For):
                     s_ = ast.For(target=s_.target, iter=s_.iter, body=without_cov(s_.body), orelse=s_.orelse, lineno=s_.lineno, col_offset=0)
                 out.append(s_)
